@@ -92,6 +92,22 @@ theorem stackCnt_edgesArgs (i : Nat) (args : List Arg) : stackCnt (edgesArgs i a
   | nil => simp [edgesArgs, stackCnt, cntArgs]
   | cons a as ih => simp [edgesArgs, cntArgs, stackCnt_append, stackCnt_edgesArg, ih]
 
+theorem dumpMeta_eq (n : Nat)
+    (ih : ∀ v : Val, v.size ≤ n → dumpLoop n [(v, none)] 0 [] = flat v none 0) :
+    ∀ l : List MetaE, sizeMetaL l ≤ n →
+      l.map (dumpMetaE fun v => dumpLoop n [(v, none)] 0 []) = flatMetaL l := by
+  intro l
+  induction l with
+  | nil => intro _; simp [flatMetaL]
+  | cons e es ihl =>
+    intro h
+    simp only [sizeMetaL] at h
+    cases e with
+    | raw k r => simp [dumpMetaE, flatMetaL, MetaE.flat, ihl (by omega)]
+    | expr k v =>
+      simp only [MetaE.size] at h
+      simp [dumpMetaE, flatMetaL, MetaE.flat, ihl (by omega), ih v (by omega)]
+
 theorem dumpLoop_spec : ∀ fuel st i out, stackSize st ≤ fuel →
     dumpLoop fuel st i out = out ++ flatStack st i := by
   intro fuel
@@ -121,7 +137,17 @@ theorem dumpLoop_spec : ∀ fuel st i out, stackSize st ≤ fuel →
             have ht : stackSize [(t, (none : Option Edge))] ≤ n := by
               simp [stackSize, sizeOpt] at h ⊢; omega
             simp [flatTy, ih _ 0 [] ht, flatStack]
-        simp only [dumpLoop, hty, ih _ _ _ hsz, flatStack, flat, flatStack_append, flatStack_edgesArgs,
+        have ihv : ∀ v : Val, v.size ≤ n → dumpLoop n [(v, none)] 0 [] = flat v none 0 := by
+          intro v hv
+          have hs : stackSize [(v, (none : Option Edge))] ≤ n := by simpa [stackSize] using hv
+          simp [ih _ 0 [] hs, flatStack]
+        have hmeta : (m.map fun l => l.map (dumpMetaE fun v => dumpLoop n [(v, none)] 0 [])) = flatMeta m := by
+          cases m with
+          | none => simp [flatMeta]
+          | some l =>
+            have hl : sizeMetaL l ≤ n := by simp [sizeMeta] at h; omega
+            simp [flatMeta, dumpMeta_eq n ihv l hl]
+        simp only [dumpLoop, hty, hmeta, ih _ _ _ hsz, flatStack, flat, flatStack_append, flatStack_edgesArgs,
           stackCnt_edgesArgs, Val.cnt]
         simp [Nat.add_assoc, Nat.add_comm 1]
       | dtype s =>
@@ -158,7 +184,7 @@ def slotsOf : List Arg → Nat → Slots
 mutual
 def seg : Val → Option Link → Nat → List Cell
   | .node cls ty c m args, l, i =>
-    .node cls (normOpt ty) (normC c) m (slotsOf args (i + 1)) l :: segArgs args i (i + 1)
+    .node cls (normOpt ty) (normC c) (normMeta m) (slotsOf args (i + 1)) l none :: segArgs args i (i + 1)
   | .dtype s, _, _ => [.dtype s]
   | .raw r, _, _ => [.raw r]
 def segArgs : List Arg → Nat → Nat → List Cell
@@ -211,12 +237,12 @@ theorem reify_seg : ∀ (v : Val) (l : Option Link) (pre post : List Cell) (i fu
     | zero => simp [Val.cnt] at hf
     | succ n =>
       have hget : (pre ++ seg (.node cls ty c m args) l i ++ post)[i]? =
-          some (.node cls (normOpt ty) (normC c) m (slotsOf args (i + 1)) l) := by
+          some (.node cls (normOpt ty) (normC c) (normMeta m) (slotsOf args (i + 1)) l none) := by
         simp [seg, ← hi]
       have hA : pre ++ seg (.node cls ty c m args) l i ++ post =
-          (pre ++ [Cell.node cls (normOpt ty) (normC c) m (slotsOf args (i + 1)) l]) ++ segArgs args i (i + 1) ++ post := by
+          (pre ++ [Cell.node cls (normOpt ty) (normC c) (normMeta m) (slotsOf args (i + 1)) l none]) ++ segArgs args i (i + 1) ++ post := by
         simp [seg]
-      have hrec := reify_segArgs args i (pre ++ [Cell.node cls (normOpt ty) (normC c) m (slotsOf args (i + 1)) l])
+      have hrec := reify_segArgs args i (pre ++ [Cell.node cls (normOpt ty) (normC c) (normMeta m) (slotsOf args (i + 1)) l none])
         post (i + 1) n (by simp [hi]) (by simp [Val.cnt] at hf; omega)
       rw [reify, hget]
       simp only [reifyCell]
@@ -364,12 +390,18 @@ theorem lt_of_get {A : List Cell} {p : Nat} {c : Cell} (h : A[p]? = some c) : p 
   have := List.getElem?_eq_some_iff.mp h
   exact this.1
 
+theorem clearUp_none {A : List Cell} {p : Nat} {cls ty c m cur l}
+    (h : A[p]? = some (.node cls ty c m cur l none)) (fuel : Nat) : clearUp A fuel p = A := by
+  cases fuel with
+  | zero => rfl
+  | succ n => simp [clearUp, h]
+
 theorem attach_ok {A : List Cell} {p : Nat} {cls ty c m cur l} (cell : Cell) (k : String) (arr : Bool)
-    (h : A[p]? = some (.node cls ty c m cur l)) :
-    attach A cell p k arr = some (A.set p (.node cls ty c m (linkArgs cur k arr A.length cell.isRawNull).1 l)
+    (h : A[p]? = some (.node cls ty c m cur l none)) :
+    attach A cell p k arr = some (A.set p (.node cls ty c m (linkArgs cur k arr A.length cell.isRawNull).1 l none)
       ++ [cell.withLink ⟨p, k, (linkArgs cur k arr A.length cell.isRawNull).2⟩]) := by
   rw [attach, if_pos (lt_of_get h)]
-  simp only [h]
+  simp only [clearUp_none h, h]
 
 theorem loadList_append (xs ys : List Payload) (A : List Cell) :
     loadList (xs ++ ys) A = (loadList xs A).bind (loadList ys) := by
@@ -401,25 +433,26 @@ theorem isRawNull_raw (r : Raw) : (Cell.raw r).isRawNull = (Val.raw r).isNull :=
 mutual
 theorem load_flat_val : ∀ (v : Val), v.WF → ∀ (A : List Cell) (p : Nat) (k : String) (arr : Bool)
     (cls : String) (ty : Option Val) (c : Comments) (m : Meta) (cur : Slots) (l : Option Link),
-    A[p]? = some (.node cls ty c m cur l) →
+    A[p]? = some (.node cls ty c m cur l none) →
     loadList (flat v (some ⟨p, k, arr⟩) A.length) A =
-      some (A.set p (.node cls ty c m (linkArgs cur k arr A.length v.isNull).1 l)
+      some (A.set p (.node cls ty c m (linkArgs cur k arr A.length v.isNull).1 l none)
         ++ seg v (some ⟨p, k, (linkArgs cur k arr A.length v.isNull).2⟩) A.length)
   | .node cls' ty' c' m' args, hwf, A, p, k, arr, cls, ty, c, m, cur, l, hA => by
     simp only [Val.WF] at hwf
-    obtain ⟨hcls, hty, hnd, hargs⟩ := hwf
+    obtain ⟨hcls, hty, hmt, hnd, hargs⟩ := hwf
     have hT := loadTy_flatTy ty' hty
-    have hcell : mkCell (Payload.mk (some p) (some k) arr (some cls') (flatTy ty') (normC c') m' none) =
-        some (.node cls' (normOpt ty') (normC c') m' [] none) := by
-      simp [mkCell, mkObj, hcls, hT]
+    have hM := loadMeta_flatMeta m' hmt
+    have hcell : mkCell (Payload.mk (some p) (some k) arr (some cls') (flatTy ty') (normC c') (flatMeta m') none) =
+        some (.node cls' (normOpt ty') (normC c') (normMeta m') [] none none) := by
+      simp [mkCell, mkObj, hcls, hT, hM]
     have hp := lt_of_get hA
     let link : Link := ⟨p, k, (linkArgs cur k arr A.length false).2⟩
-    let A0 := A.set p (.node cls ty c m (linkArgs cur k arr A.length false).1 l)
-    let A1 := A0 ++ [Cell.node cls' (normOpt ty') (normC c') m' [] (some link)]
+    let A0 := A.set p (.node cls ty c m (linkArgs cur k arr A.length false).1 l none)
+    let A1 := A0 ++ [Cell.node cls' (normOpt ty') (normC c') (normMeta m') [] (some link) none]
     have hA1len : A1.length = A.length + 1 := by simp [A1, A0]
-    have hA1get : A1[A.length]? = some (Cell.node cls' (normOpt ty') (normC c') m' [] (some link)) := by
+    have hA1get : A1[A.length]? = some (Cell.node cls' (normOpt ty') (normC c') (normMeta m') [] (some link) none) := by
       simp [A1, A0]
-    have hB := load_flatArgs args hargs hnd A1 A.length cls' (normOpt ty') (normC c') m' [] (some link) hA1get
+    have hB := load_flatArgs args hargs hnd A1 A.length cls' (normOpt ty') (normC c') (normMeta m') [] (some link) hA1get
       (by simp [keysS])
     simp only [flat, loadList, hcell, nodeP, pIndex, pKey, pArr, eIndex, eKey, eArr]
     rw [attach_ok _ _ _ hA]
@@ -445,22 +478,39 @@ theorem loadTy_flatTy : ∀ (ty : Option Val), wfOpt ty → loadTy (flatTy ty) =
   | some t, h => by
     simp only [wfOpt] at h
     simp [flatTy, loadTy, normOpt, load_flat_root t h.2 h.1]
+theorem loadMeta_flatMeta : ∀ (m : Option (List MetaE)), wfMeta m → loadMeta (flatMeta m) = some (normMeta m)
+  | none, _ => by simp [flatMeta, loadMeta, normMeta]
+  | some l, h => by
+    simp only [wfMeta] at h
+    simp [flatMeta, loadMeta, normMeta, loadMetaL_flatMetaL l h]
+theorem loadMetaL_flatMetaL : ∀ (l : List MetaE), wfMetaL l → loadMetaL (flatMetaL l) = some (normMetaL l)
+  | [], _ => by simp [flatMetaL, loadMetaL, normMetaL]
+  | .raw k r :: es, h => by
+    simp only [wfMetaL] at h
+    simp [flatMetaL, MetaE.flat, loadMetaL, loadMetaE, normMetaL, MetaE.norm, loadMetaL_flatMetaL es h.2]
+  | .expr k v :: es, h => by
+    simp only [wfMetaL, MetaE.WF] at h
+    have hobj : v.isObj = true := by
+      cases v <;> simp_all [Val.isNode, Val.isObj]
+    simp [flatMetaL, MetaE.flat, loadMetaL, loadMetaE, normMetaL, MetaE.norm, loadMetaL_flatMetaL es h.2,
+      load_flat_root v h.1.2 hobj]
 theorem load_flat_root : ∀ (v : Val), v.WF → v.isObj = true → load (flat v none 0) = some (some v.norm)
   | .node cls' ty' c' m' args, hwf, _ => by
     simp only [Val.WF] at hwf
-    obtain ⟨hcls, hty, hnd, hargs⟩ := hwf
+    obtain ⟨hcls, hty, hmt, hnd, hargs⟩ := hwf
     have hT := loadTy_flatTy ty' hty
-    have hroot : mkRoot (nodeP none cls' (flatTy ty') c' m') =
-        some (.node cls' (normOpt ty') (normC c') m' [] none) := by
-      simp [nodeP, mkRoot, mkObj, hcls, hT]
-    have hB := load_flatArgs args hargs hnd [Cell.node cls' (normOpt ty') (normC c') m' [] none] 0
-      cls' (normOpt ty') (normC c') m' [] none (by simp) (by simp [keysS])
+    have hM := loadMeta_flatMeta m' hmt
+    have hroot : mkRoot (nodeP none cls' (flatTy ty') c' (flatMeta m')) =
+        some (.node cls' (normOpt ty') (normC c') (normMeta m') [] none none) := by
+      simp [nodeP, mkRoot, mkObj, hcls, hT, hM, eIndex, eKey, eArr]
+    have hB := load_flatArgs args hargs hnd [Cell.node cls' (normOpt ty') (normC c') (normMeta m') [] none none] 0
+      cls' (normOpt ty') (normC c') (normMeta m') [] none (by simp) (by simp [keysS])
     have hR := reify_seg (.node cls' ty' c' m' args) none [] [] 0 (Val.node cls' ty' c' m' args).cnt rfl (Nat.le_refl _)
     simp only [List.length_singleton, Nat.zero_add] at hB
     simp only [flat, load, hroot, Nat.zero_add, hB]
     simp only [seg, List.nil_append, List.append_nil, Nat.zero_add] at hR
-    have hlen : ([Cell.node cls' (normOpt ty') (normC c') m' [] none].set 0
-        (Cell.node cls' (normOpt ty') (normC c') m' ([] ++ slotsOf args 1) none) ++ segArgs args 0 1).length
+    have hlen : ([Cell.node cls' (normOpt ty') (normC c') (normMeta m') [] none none].set 0
+        (Cell.node cls' (normOpt ty') (normC c') (normMeta m') ([] ++ slotsOf args 1) none none) ++ segArgs args 0 1).length
         = (Val.node cls' ty' c' m' args).cnt := by
       simp [Val.cnt, segArgs_length, Nat.add_comm]
     rw [hlen]
@@ -471,9 +521,9 @@ theorem load_flat_root : ∀ (v : Val), v.WF → v.isObj = true → load (flat v
   | .raw r, _, h => by simp [Val.isObj] at h
 theorem load_flatArgs : ∀ (args : List Arg), wfArgs args → (keysOf args).Nodup →
     ∀ (A : List Cell) (j : Nat) (cls : String) (ty : Option Val) (c : Comments) (m : Meta) (cur : Slots) (l : Option Link),
-    A[j]? = some (.node cls ty c m cur l) → (∀ k ∈ keysOf args, k ∉ keysS cur) →
+    A[j]? = some (.node cls ty c m cur l none) → (∀ k ∈ keysOf args, k ∉ keysS cur) →
     loadList (flatArgs args j A.length) A =
-      some (A.set j (.node cls ty c m (cur ++ slotsOf args A.length) l) ++ segArgs args j A.length)
+      some (A.set j (.node cls ty c m (cur ++ slotsOf args A.length) l none) ++ segArgs args j A.length)
   | [], _, _, A, j, cls, ty, c, m, cur, l, hA, _ => by
     simp [flatArgs, loadList, slotsOf, segArgs]
     exact (set_self _ _ _ hA).symm
@@ -489,10 +539,10 @@ theorem load_flatArgs : ∀ (args : List Arg), wfArgs args → (keysOf args).Nod
     · have hd' : a.dropped = false := by simpa using hd
       have hka : a.key ∉ keysS cur := hdis a.key (by simp [keysOf])
       have hstep := load_flatArg a hwf.1 hd' A j cls ty c m cur l hA hka
-      have hlen : (A.set j (.node cls ty c m (cur ++ [(a.key, a.slot A.length)]) l) ++ segArg a j A.length).length
+      have hlen : (A.set j (.node cls ty c m (cur ++ [(a.key, a.slot A.length)]) l none) ++ segArg a j A.length).length
           = A.length + a.cnt := by simp [segArg_length]
-      have hget : (A.set j (.node cls ty c m (cur ++ [(a.key, a.slot A.length)]) l) ++ segArg a j A.length)[j]?
-          = some (.node cls ty c m (cur ++ [(a.key, a.slot A.length)]) l) := get_set_append _ _ _ _ hj
+      have hget : (A.set j (.node cls ty c m (cur ++ [(a.key, a.slot A.length)]) l none) ++ segArg a j A.length)[j]?
+          = some (.node cls ty c m (cur ++ [(a.key, a.slot A.length)]) l none) := get_set_append _ _ _ _ hj
       have hrec := load_flatArgs as hwf.2 hnd.2 _ j cls ty c m (cur ++ [(a.key, a.slot A.length)]) l hget
         (by
           intro k hk
@@ -504,9 +554,9 @@ theorem load_flatArgs : ∀ (args : List Arg), wfArgs args → (keysOf args).Nod
       simp [slotsOf, hd', segArgs, List.set_append, hj]
 theorem load_flatArg : ∀ (a : Arg), a.WF → a.dropped = false →
     ∀ (A : List Cell) (j : Nat) (cls : String) (ty : Option Val) (c : Comments) (m : Meta) (cur : Slots) (l : Option Link),
-    A[j]? = some (.node cls ty c m cur l) → a.key ∉ keysS cur →
+    A[j]? = some (.node cls ty c m cur l none) → a.key ∉ keysS cur →
     loadList (flatArg a j A.length) A =
-      some (A.set j (.node cls ty c m (cur ++ [(a.key, a.slot A.length)]) l) ++ segArg a j A.length)
+      some (A.set j (.node cls ty c m (cur ++ [(a.key, a.slot A.length)]) l none) ++ segArg a j A.length)
   | .one k v, hwf, hd, A, j, cls, ty, c, m, cur, l, hA, hk => by
     have hn : v.isNull = false := by simpa [Arg.dropped] using hd
     have h := load_flat_val v hwf A j k false cls ty c m cur l hA
@@ -522,9 +572,9 @@ theorem load_flatArg : ∀ (a : Arg), a.WF → a.dropped = false →
 theorem load_flatVals : ∀ (vs : List Val), wfVals vs →
     ∀ (A : List Cell) (j : Nat) (k : String) (refs : List Nat) (cls : String) (ty : Option Val) (c : Comments)
       (m : Meta) (cur : Slots) (l : Option Link), k ∉ keysS cur →
-    A[j]? = some (.node cls ty c m (withList cur k refs) l) →
+    A[j]? = some (.node cls ty c m (withList cur k refs) l none) →
     loadList (flatVals vs k j A.length) A =
-      some (A.set j (.node cls ty c m (withList cur k (refs ++ offsets vs A.length)) l)
+      some (A.set j (.node cls ty c m (withList cur k (refs ++ offsets vs A.length)) l none)
         ++ segVals vs k j refs.length A.length)
   | [], _, A, j, k, refs, cls, ty, c, m, cur, l, _, hA => by
     simp [flatVals, loadList, offsets, segVals]
@@ -534,11 +584,11 @@ theorem load_flatVals : ∀ (vs : List Val), wfVals vs →
     have hj := lt_of_get hA
     have hstep := load_flat_val v hwf.1 A j k true cls ty c m (withList cur k refs) l hA
     simp only [linkArgs, appendRef_withList refs A.length hk, if_true] at hstep
-    have hlen : (A.set j (.node cls ty c m (withList cur k (refs ++ [A.length])) l)
+    have hlen : (A.set j (.node cls ty c m (withList cur k (refs ++ [A.length])) l none)
         ++ seg v (some ⟨j, k, some refs.length⟩) A.length).length = A.length + v.cnt := by simp [seg_length]
-    have hget : (A.set j (.node cls ty c m (withList cur k (refs ++ [A.length])) l)
+    have hget : (A.set j (.node cls ty c m (withList cur k (refs ++ [A.length])) l none)
         ++ seg v (some ⟨j, k, some refs.length⟩) A.length)[j]?
-        = some (.node cls ty c m (withList cur k (refs ++ [A.length])) l) := get_set_append _ _ _ _ hj
+        = some (.node cls ty c m (withList cur k (refs ++ [A.length])) l none) := get_set_append _ _ _ _ hj
     have hrec := load_flatVals vs hwf.2 _ j k (refs ++ [A.length]) cls ty c m cur l hk hget
     rw [hlen] at hrec
     simp only [flatVals, loadList_append, hstep, Option.bind_some, hrec]
@@ -570,12 +620,19 @@ theorem normC_idem (c : Comments) : normC (normC c) = normC c := by
 mutual
 theorem norm_idem : ∀ (v : Val), v.norm.norm = v.norm
   | .node cls ty c m args => by
-    simp [Val.norm, normOpt_idem ty, normC_idem, normArgs_idem args]
+    simp [Val.norm, normOpt_idem ty, normC_idem, normMeta_idem m, normArgs_idem args]
   | .dtype _ => by simp [Val.norm]
   | .raw _ => by simp [Val.norm]
 theorem normOpt_idem : ∀ (ty : Option Val), normOpt (normOpt ty) = normOpt ty
   | none => by simp [normOpt]
   | some v => by simp [normOpt, norm_idem v]
+theorem normMeta_idem : ∀ (m : Option (List MetaE)), normMeta (normMeta m) = normMeta m
+  | none => by simp [normMeta]
+  | some l => by simp [normMeta, normMetaL_idem l]
+theorem normMetaL_idem : ∀ (l : List MetaE), normMetaL (normMetaL l) = normMetaL l
+  | [] => by simp [normMetaL]
+  | .raw k r :: es => by simp [normMetaL, MetaE.norm, normMetaL_idem es]
+  | .expr k v :: es => by simp [normMetaL, MetaE.norm, norm_idem v, normMetaL_idem es]
 theorem normArgs_idem : ∀ (args : List Arg), normArgs (normArgs args) = normArgs args
   | [] => by simp [normArgs]
   | a :: as => by
@@ -614,12 +671,19 @@ end
 mutual
 theorem flat_norm : ∀ (v : Val) (e : Option Edge) (i : Nat), flat v.norm e i = flat v e i
   | .node cls ty c m args, e, i => by
-    simp [Val.norm, flat, nodeP, normC_idem, flatTy_norm ty, flatArgs_norm args i (i + 1)]
+    simp [Val.norm, flat, nodeP, normC_idem, flatTy_norm ty, flatMeta_norm m, flatArgs_norm args i (i + 1)]
   | .dtype _, _, _ => by simp [Val.norm]
   | .raw _, _, _ => by simp [Val.norm]
 theorem flatTy_norm : ∀ (ty : Option Val), flatTy (normOpt ty) = flatTy ty
   | none => by simp [normOpt]
   | some v => by simp [normOpt, flatTy, flat_norm v none 0]
+theorem flatMeta_norm : ∀ (m : Option (List MetaE)), flatMeta (normMeta m) = flatMeta m
+  | none => by simp [normMeta]
+  | some l => by simp [normMeta, flatMeta, flatMetaL_norm l]
+theorem flatMetaL_norm : ∀ (l : List MetaE), flatMetaL (normMetaL l) = flatMetaL l
+  | [] => by simp [normMetaL]
+  | .raw k r :: es => by simp [normMetaL, MetaE.norm, flatMetaL, MetaE.flat, flatMetaL_norm es]
+  | .expr k v :: es => by simp [normMetaL, MetaE.norm, flatMetaL, MetaE.flat, flat_norm v none 0, flatMetaL_norm es]
 theorem flatArgs_norm : ∀ (args : List Arg) (p i : Nat), flatArgs (normArgs args) p i = flatArgs args p i
   | [], _, _ => by simp [normArgs]
   | a :: as, p, i => by
@@ -633,6 +697,493 @@ theorem flatVals_norm : ∀ (vs : List Val) (k : String) (p i : Nat), flatVals (
   | [], _, _, _ => by simp [normVals]
   | v :: vs, k, p, i => by
     simp [normVals, flatVals, flat_norm v, cnt_norm v, flatVals_norm vs k p (i + v.cnt)]
+end
+
+
+/-! ## Part 4: every arena `load` returns is closed, acyclic and hash-free (any accepted payload list) -/
+
+theorem loadArena_flat (t : Val) (hwf : t.WF) (hobj : t.isObj = true) :
+    loadArena (flat t none 0) = some (seg t none 0) := by
+  cases t with
+  | node cls ty c m args =>
+    simp only [Val.WF] at hwf
+    obtain ⟨hcls, hty, hmt, hnd, hargs⟩ := hwf
+    have hT := loadTy_flatTy ty hty
+    have hM := loadMeta_flatMeta m hmt
+    have hB := load_flatArgs args hargs hnd [Cell.node cls (normOpt ty) (normC c) (normMeta m) [] none none] 0
+      cls (normOpt ty) (normC c) (normMeta m) [] none (by simp) (by simp [keysS])
+    simp only [List.length_singleton] at hB
+    simp [flat, loadArena, nodeP, mkRoot, mkObj, hcls, hT, hM, eIndex, eKey, eArr, hB, seg]
+  | dtype s => simp [flat, loadArena, dtypeP, mkRoot, mkObj, loadList, seg, eIndex, eKey, eArr]
+  | raw r => simp [Val.isObj] at hobj
+
+def Slot.refs : Slot → List Nat
+  | .one r => [r]
+  | .many rs => rs
+
+def slotsRefs : Slots → List Nat
+  | [] => []
+  | (_, s) :: rest => s.refs ++ slotsRefs rest
+
+/-- what holds of the cell at index `j` in an arena of `n` cells: no cached hash, children refs point forwards and
+    inside the arena, the parent index points backwards -/
+def CellInv (n j : Nat) : Cell → Prop
+  | .node _ _ _ _ args link h =>
+    h = none ∧ (∀ r ∈ slotsRefs args, j < r ∧ r < n) ∧ (∀ l, link = some l → l.parent < j)
+  | _ => True
+
+def AInv (A : List Cell) : Prop := ∀ j c, A[j]? = some c → CellInv A.length j c
+
+theorem CellInv_mono {n n' j : Nat} {c : Cell} (h : CellInv n j c) (hn : n ≤ n') : CellInv n' j c := by
+  cases c with
+  | node cls ty cm m args link hsh =>
+    simp only [CellInv] at h ⊢
+    exact ⟨h.1, fun r hr => ⟨(h.2.1 r hr).1, by have := (h.2.1 r hr).2; omega⟩, h.2.2⟩
+  | dtype s => trivial
+  | raw r => trivial
+
+theorem lookup_refs {k : String} {args : Slots} {s : Slot} (h : lookupKey k args = some s) :
+    ∀ r ∈ s.refs, r ∈ slotsRefs args := by
+  induction args with
+  | nil => simp [lookupKey] at h
+  | cons x xs ih =>
+    obtain ⟨k', s'⟩ := x
+    simp only [lookupKey] at h
+    intro r hr
+    by_cases hk : k' = k
+    · simp [hk] at h; subst h; simp [slotsRefs, hr]
+    · simp [hk] at h; simp [slotsRefs, ih h r hr]
+
+theorem setKey_refs (k : String) (s : Slot) (args : Slots) :
+    ∀ r ∈ slotsRefs (setKey k s args), r ∈ slotsRefs args ∨ r ∈ s.refs := by
+  induction args with
+  | nil => intro r hr; simp [setKey, slotsRefs] at hr; exact Or.inr hr
+  | cons x xs ih =>
+    obtain ⟨k', s'⟩ := x
+    intro r hr
+    by_cases hk : k' = k
+    · simp [setKey, hk, slotsRefs] at hr
+      rcases hr with h | h
+      · exact Or.inr h
+      · exact Or.inl (by simp [slotsRefs, h])
+    · simp [setKey, hk, slotsRefs] at hr
+      rcases hr with h | h
+      · exact Or.inl (by simp [slotsRefs, h])
+      · rcases ih r h with h' | h'
+        · exact Or.inl (by simp [slotsRefs, h'])
+        · exact Or.inr h'
+
+theorem eraseKey_refs (k : String) (args : Slots) :
+    ∀ r ∈ slotsRefs (eraseKey k args), r ∈ slotsRefs args := by
+  induction args with
+  | nil => intro r hr; simp [eraseKey, slotsRefs] at hr
+  | cons x xs ih =>
+    obtain ⟨k', s'⟩ := x
+    intro r hr
+    by_cases hk : k' = k
+    · simp [eraseKey, hk] at hr; simp [slotsRefs, hr]
+    · simp [eraseKey, hk, slotsRefs] at hr
+      rcases hr with h | h
+      · simp [slotsRefs, h]
+      · simp [slotsRefs, ih r h]
+
+theorem linkArgs_refs (args : Slots) (k : String) (arr : Bool) (j : Nat) (b : Bool) :
+    ∀ r ∈ slotsRefs (linkArgs args k arr j b).1, r ∈ slotsRefs args ∨ r = j := by
+  intro r hr
+  unfold linkArgs at hr
+  by_cases ha : arr = true
+  · simp only [ha, if_true] at hr
+    unfold appendRef at hr
+    split at hr
+    · rename_i rs hl
+      rcases setKey_refs _ _ _ r hr with h | h
+      · exact Or.inl h
+      · simp [Slot.refs] at h
+        rcases h with h | h
+        · exact Or.inl (lookup_refs hl r (by simpa [Slot.refs] using h))
+        · exact Or.inr h
+    · rcases setKey_refs _ _ _ r hr with h | h
+      · exact Or.inl h
+      · simp [Slot.refs] at h; exact Or.inr h
+  · simp only [ha] at hr
+    by_cases hb : b = true
+    · simp [hb] at hr; exact Or.inl (eraseKey_refs _ _ r hr)
+    · simp [hb] at hr
+      rcases setKey_refs _ _ _ r hr with h | h
+      · exact Or.inl h
+      · simp [Slot.refs] at h; exact Or.inr h
+
+theorem clearUp_of_inv {A : List Cell} (h : AInv A) (fuel idx : Nat) : clearUp A fuel idx = A := by
+  cases fuel with
+  | zero => rfl
+  | succ n =>
+    cases hc : A[idx]? with
+    | none => simp [clearUp, hc]
+    | some c =>
+      cases c with
+      | node cls ty cm m args l hsh =>
+        have := h idx _ hc
+        simp only [CellInv] at this
+        simp [clearUp, hc, this.1]
+      | dtype s => simp [clearUp, hc]
+      | raw r => simp [clearUp, hc]
+
+theorem mkObj_inv {cn : String} {tyv : Option (Option Val)} {c : Comments} {mv : Option Meta} {value : Option Raw}
+    {cell : Cell} (h : mkObj cn tyv c mv value = some cell) :
+    (∃ s, cell = .dtype s) ∨ (∃ t m, cell = .node cn t c m [] none none) := by
+  unfold mkObj at h
+  split at h
+  · split at h
+    · simp at h; exact Or.inl ⟨_, h.symm⟩
+    · simp at h
+  · split at h
+    · simp at h; exact Or.inr ⟨_, _, h.symm⟩
+    · simp at h
+
+theorem mkCell_inv {p : Payload} {cell : Cell} (h : mkCell p = some cell) :
+    (∃ s, cell = .dtype s) ∨ (∃ r, cell = .raw r) ∨ (∃ cn t c m, cell = .node cn t c m [] none none) := by
+  obtain ⟨i, k, a, cls, ty, c, m, value⟩ := p
+  cases cls with
+  | none =>
+    cases value with
+    | none => simp [mkCell] at h
+    | some r => simp [mkCell] at h; exact Or.inr (Or.inl ⟨r, h.symm⟩)
+  | some cn =>
+    simp only [mkCell] at h
+    rcases mkObj_inv h with ⟨s, hs⟩ | ⟨t, m', hm⟩
+    · exact Or.inl ⟨s, hs⟩
+    · exact Or.inr (Or.inr ⟨cn, t, c, m', hm⟩)
+
+theorem attach_inv {A A' : List Cell} {cell : Cell} {idx : Nat} {k : String} {arr : Bool}
+    (hA : AInv A)
+    (hcell : (∃ s, cell = .dtype s) ∨ (∃ r, cell = .raw r) ∨ (∃ cn t c m, cell = .node cn t c m [] none none))
+    (h : attach A cell idx k arr = some A') : AInv A' := by
+  unfold attach at h
+  split at h
+  · rename_i hlt
+    simp only [clearUp_of_inv hA] at h
+    split at h
+    · rename_i cls ty c m args l hsh hget
+      simp at h
+      subst h
+      have hpar := hA idx _ hget
+      simp only [CellInv] at hpar
+      intro j cj hj
+      have hlen : (A.set idx (Cell.node cls ty c m (linkArgs args k arr A.length cell.isRawNull).fst l hsh) ++
+          [cell.withLink ⟨idx, k, (linkArgs args k arr A.length cell.isRawNull).snd⟩]).length = A.length + 1 := by
+        simp
+      rw [hlen]
+      by_cases hjn : j < A.length
+      · rw [List.getElem?_append_left (by simpa using hjn)] at hj
+        by_cases hji : j = idx
+        · subst hji
+          simp [hjn] at hj
+          subst hj
+          simp only [CellInv]
+          refine ⟨hpar.1, ?_, hpar.2.2⟩
+          intro r hr
+          rcases linkArgs_refs _ _ _ _ _ r hr with h' | h'
+          · have := hpar.2.1 r h'; omega
+          · omega
+        · rw [List.getElem?_set_ne (by omega)] at hj
+          exact CellInv_mono (hA j cj hj) (by omega)
+      · have hjeq : j = A.length := by
+          have := (List.getElem?_eq_some_iff.mp hj).1
+          simp at this; omega
+        subst hjeq
+        simp at hj
+        subst hj
+        rcases hcell with ⟨s, hs⟩ | ⟨r, hr⟩ | ⟨cn, t, c', m', hn⟩
+        · subst hs; simp [Cell.withLink, CellInv]
+        · subst hr; simp [Cell.withLink, CellInv]
+        · subst hn; simp [Cell.withLink, CellInv, slotsRefs]; exact hlt
+    · simp at h
+  · simp at h
+
+theorem loadList_inv : ∀ (ps : List Payload) (A A' : List Cell), AInv A → loadList ps A = some A' → AInv A' := by
+  intro ps
+  induction ps with
+  | nil => intro A A' hA h; simp [loadList] at h; subst h; exact hA
+  | cons p ps ih =>
+    intro A A' hA h
+    simp only [loadList] at h
+    cases hc : mkCell p with
+    | none => simp [hc] at h
+    | some cell =>
+      simp only [hc] at h
+      cases hi : pIndex p with
+      | none => simp [hi] at h
+      | some idx =>
+        cases hk : pKey p with
+        | none => simp [hi, hk] at h
+        | some k =>
+          simp only [hi, hk] at h
+          cases hat : attach A cell idx k (pArr p) with
+          | none => simp [hat] at h
+          | some A1 =>
+            simp only [hat] at h
+            exact ih A1 A' (attach_inv hA (mkCell_inv hc) hat) h
+
+theorem loadArena_inv (ps : List Payload) (A : List Cell) (h : loadArena ps = some A) : AInv A := by
+  cases ps with
+  | nil => simp [loadArena] at h; subst h; intro j c hj; simp at hj
+  | cons p tail =>
+    simp only [loadArena] at h
+    cases hr : mkRoot p with
+    | none => simp [hr] at h
+    | some root =>
+      simp only [hr] at h
+      have hroot : AInv [root] := by
+        obtain ⟨i, k, a, cls, ty, c, m, value⟩ := p
+        cases cls with
+        | none => simp [mkRoot] at hr
+        | some cn =>
+          simp only [mkRoot] at hr
+          intro j cj hj
+          have hj0 : j = 0 := by
+            have := (List.getElem?_eq_some_iff.mp hj).1
+            simp at this; omega
+          subst hj0
+          simp at hj
+          subst hj
+          rcases mkObj_inv hr with ⟨s, hs⟩ | ⟨t, m', hm⟩
+          · subst hs; simp [CellInv]
+          · subst hm; simp [CellInv, slotsRefs]
+      exact loadList_inv tail [root] A hroot h
+
+
+/-! ## Part 5: parent links of the rebuilt tree (the C08 invariant): every child records exactly the slot it is stored under -/
+
+/-- cell `j` is an Expression whose `(parent, arg_key, index)` is `l`, or a scalar / DType (no parent fields) -/
+def LinkIs (A : List Cell) (j : Nat) (l : Link) : Prop :=
+  match A[j]? with
+  | some (.node _ _ _ _ _ l' _) => l' = some l
+  | some _ => True
+  | none => False
+
+def refsOK (A : List Cell) (p : Nat) (k : String) : Nat → List Nat → Prop
+  | _, [] => True
+  | n, r :: rs => LinkIs A r ⟨p, k, some n⟩ ∧ refsOK A p k (n + 1) rs
+
+def slotsOK (A : List Cell) (p : Nat) : Slots → Prop
+  | [] => True
+  | (k, .one r) :: rest => LinkIs A r ⟨p, k, none⟩ ∧ slotsOK A p rest
+  | (k, .many rs) :: rest => refsOK A p k 0 rs ∧ slotsOK A p rest
+
+/-- for the node at `j`: `args[k].parent is node ∧ .arg_key == k ∧ .index is None`, and
+    `args[k][n].parent is node ∧ .arg_key == k ∧ .index == n`, for every key -/
+def cellOK (A : List Cell) (j : Nat) : Prop :=
+  match A[j]? with
+  | some (.node _ _ _ _ args _ _) => slotsOK A j args
+  | _ => True
+
+theorem head_link (v : Val) (l : Link) (pre post : List Cell) (i : Nat) (hi : pre.length = i) :
+    LinkIs (pre ++ seg v (some l) i ++ post) i l := by
+  cases v <;> simp [LinkIs, seg, ← hi]
+
+theorem nonempty_of_not_isEmpty {α} {l : List α} (h : ¬ l.isEmpty = true) : ∃ x xs, l = x :: xs := by
+  cases l with
+  | nil => simp at h
+  | cons x xs => exact ⟨x, xs, rfl⟩
+
+mutual
+theorem links_seg : ∀ (v : Val) (l : Option Link) (pre post : List Cell) (i : Nat), pre.length = i →
+    ∀ j, i ≤ j → j < i + v.cnt → cellOK (pre ++ seg v l i ++ post) j
+  | .node cls ty c m args, l, pre, post, i, hi, j, h1, h2 => by
+    have hA : pre ++ seg (.node cls ty c m args) l i ++ post =
+        (pre ++ [Cell.node cls (normOpt ty) (normC c) (normMeta m) (slotsOf args (i + 1)) l none])
+          ++ segArgs args i (i + 1) ++ post := by simp [seg]
+    have hrec := links_segArgs args i
+      (pre ++ [Cell.node cls (normOpt ty) (normC c) (normMeta m) (slotsOf args (i + 1)) l none]) post (i + 1)
+      (by simp [hi])
+    rw [hA]
+    by_cases hj : j = i
+    · subst hj
+      have hget : ((pre ++ [Cell.node cls (normOpt ty) (normC c) (normMeta m) (slotsOf args (j + 1)) l none])
+          ++ segArgs args j (j + 1) ++ post)[j]? =
+          some (Cell.node cls (normOpt ty) (normC c) (normMeta m) (slotsOf args (j + 1)) l none) := by
+        simp [← hi]
+      unfold cellOK
+      rw [hget]
+      exact hrec.2
+    · exact hrec.1 j (by omega) (by simp [Val.cnt] at h2; omega)
+  | .dtype s, l, pre, post, i, hi, j, h1, h2 => by
+    have hj : j = i := by simp [Val.cnt] at h2; omega
+    subst hj
+    simp [cellOK, seg, ← hi]
+  | .raw r, l, pre, post, i, hi, j, h1, h2 => by
+    have hj : j = i := by simp [Val.cnt] at h2; omega
+    subst hj
+    simp [cellOK, seg, ← hi]
+theorem links_segArgs : ∀ (args : List Arg) (p : Nat) (pre post : List Cell) (i : Nat), pre.length = i →
+    (∀ j, i ≤ j → j < i + cntArgs args → cellOK (pre ++ segArgs args p i ++ post) j) ∧
+    slotsOK (pre ++ segArgs args p i ++ post) p (slotsOf args i)
+  | [], p, pre, post, i, hi => by
+    refine ⟨?_, by simp [slotsOf, slotsOK]⟩
+    intro j h1 h2; simp [cntArgs] at h2; omega
+  | .one k v :: as, p, pre, post, i, hi => by
+    by_cases hn : v.isNull = true
+    · have hd : (Arg.one k v).dropped = true := by simp [Arg.dropped, hn]
+      have h0 := dropped_cnt _ hd
+      have := links_segArgs as p pre post i hi
+      simpa [slotsOf, hd, segArgs, dropped_segArg _ p i hd, h0, cntArgs] using this
+    · have hd : (Arg.one k v).dropped = false := by simp [Arg.dropped, hn]
+      have hc : (Arg.one k v).cnt = v.cnt := by simp [Arg.cnt, hn]
+      have hv := links_seg v (some ⟨p, k, none⟩) pre (segArgs as p (i + v.cnt) ++ post) i hi
+      have hh := head_link v ⟨p, k, none⟩ pre (segArgs as p (i + v.cnt) ++ post) i hi
+      have hrest := links_segArgs as p (pre ++ seg v (some ⟨p, k, none⟩) i) post (i + v.cnt)
+        (by simp [seg_length, hi])
+      simp only [slotsOf, hd, segArgs, segArg, hn, hc, cntArgs, Arg.key, Arg.slot, slotsOK, Bool.false_eq_true,
+        ↓reduceIte]
+      simp only [List.append_assoc] at hv hh hrest ⊢
+      refine ⟨?_, hh, hrest.2⟩
+      intro j h1 h2
+      by_cases hj : j < i + v.cnt
+      · exact hv j h1 hj
+      · exact hrest.1 j (by omega) (by omega)
+  | .many k vs :: as, p, pre, post, i, hi => by
+    by_cases hn : vs.isEmpty = true
+    · have hd : (Arg.many k vs).dropped = true := by simp [Arg.dropped, hn]
+      have h0 := dropped_cnt _ hd
+      have := links_segArgs as p pre post i hi
+      simpa [slotsOf, hd, segArgs, dropped_segArg _ p i hd, h0, cntArgs] using this
+    · have hd : (Arg.many k vs).dropped = false := by simp [Arg.dropped, hn]
+      have hc : (Arg.many k vs).cnt = cntVals vs := by simp [Arg.cnt]
+      have hv := links_segVals vs k p 0 pre (segArgs as p (i + cntVals vs) ++ post) i hi
+      have hrest := links_segArgs as p (pre ++ segVals vs k p 0 i) post (i + cntVals vs)
+        (by simp [segVals_length, hi])
+      simp only [slotsOf, hd, segArgs, segArg, hc, cntArgs, Arg.key, Arg.slot, slotsOK, Bool.false_eq_true,
+        ↓reduceIte]
+      simp only [List.append_assoc] at hv hrest ⊢
+      refine ⟨?_, hv.2, hrest.2⟩
+      intro j h1 h2
+      by_cases hj : j < i + cntVals vs
+      · exact hv.1 j h1 hj
+      · exact hrest.1 j (by omega) (by omega)
+theorem links_segVals : ∀ (vs : List Val) (k : String) (p n : Nat) (pre post : List Cell) (i : Nat), pre.length = i →
+    (∀ j, i ≤ j → j < i + cntVals vs → cellOK (pre ++ segVals vs k p n i ++ post) j) ∧
+    refsOK (pre ++ segVals vs k p n i ++ post) p k n (offsets vs i)
+  | [], k, p, n, pre, post, i, hi => by
+    refine ⟨?_, by simp [offsets, refsOK]⟩
+    intro j h1 h2; simp [cntVals] at h2; omega
+  | v :: vs, k, p, n, pre, post, i, hi => by
+    have hv := links_seg v (some ⟨p, k, some n⟩) pre (segVals vs k p (n + 1) (i + v.cnt) ++ post) i hi
+    have hh := head_link v ⟨p, k, some n⟩ pre (segVals vs k p (n + 1) (i + v.cnt) ++ post) i hi
+    have hrest := links_segVals vs k p (n + 1) (pre ++ seg v (some ⟨p, k, some n⟩) i) post (i + v.cnt)
+      (by simp [seg_length, hi])
+    simp only [offsets, segVals, refsOK, cntVals]
+    simp only [List.append_assoc] at hv hh hrest ⊢
+    refine ⟨?_, hh, hrest.2⟩
+    intro j h1 h2
+    by_cases hj : j < i + v.cnt
+    · exact hv j h1 hj
+    · exact hrest.1 j (by omega) (by omega)
+end
+
+theorem links_closed_form (t : Val) : ∀ j, j < t.cnt → cellOK (seg t none 0) j := by
+  intro j hj
+  have := links_seg t none [] [] 0 rfl j (Nat.zero_le _) (by omega)
+  simpa using this
+
+
+/-! ## Part 6: every payload is a JSON value -/
+
+mutual
+theorem raw_json : ∀ (r : Raw), JsonValue r.toPy
+  | .null => by simp [Raw.toPy]; exact .none
+  | .bool b => by simp [Raw.toPy]; exact .bool b
+  | .int i => by simp [Raw.toPy]; exact .int i
+  | .str s => by simp [Raw.toPy]; exact .str s
+  | .arr l => by simp only [Raw.toPy]; exact .list _ (raws_json l)
+theorem raws_json : ∀ (l : List Raw), ∀ x ∈ rawsToPy l, JsonValue x
+  | [] => by simp [rawsToPy]
+  | r :: rs => by
+    intro x hx
+    simp only [rawsToPy, List.mem_cons] at hx
+    rcases hx with h | h
+    · exact h ▸ raw_json r
+    · exact raws_json rs x h
+end
+
+theorem optField_json (k : String) (o : Option Py) (h : ∀ v, o = some v → JsonValue v) :
+    ∀ kv ∈ optField k o, (∃ s, kv.1 = .str s) ∧ JsonValue kv.2 := by
+  cases o with
+  | none => simp [optField]
+  | some v => intro kv hkv; simp [optField] at hkv; subst hkv; exact ⟨⟨k, rfl⟩, h v rfl⟩
+
+theorem dict_json (l : List (Py × Py)) (h : ∀ kv ∈ l, (∃ s, kv.1 = .str s) ∧ JsonValue kv.2) :
+    JsonValue (.dict l) :=
+  .dict l (fun kv hkv => (h kv hkv).1) (fun kv hkv => (h kv hkv).2)
+
+theorem strs_json (l : List String) : JsonValue (Py.list (l.map Py.str)) := by
+  refine .list _ ?_
+  intro x hx
+  simp at hx
+  obtain ⟨s, _, rfl⟩ := hx
+  exact .str s
+
+mutual
+theorem payload_json (K : Keys) : ∀ (p : Payload), JsonValue (p.toPy K)
+  | .mk i k a cls ty c m v => by
+    simp only [Payload.toPy]
+    refine dict_json _ ?_
+    intro kv hkv
+    simp only [List.mem_append] at hkv
+    rcases hkv with ((((((h | h) | h) | h) | h) | h) | h) | h
+    · refine optField_json _ _ ?_ kv h
+      intro x hx; cases i <;> simp at hx; subst hx; exact .int _
+    · refine optField_json _ _ ?_ kv h
+      intro x hx; cases k <;> simp at hx; subst hx; exact .str _
+    · by_cases ha : a = true
+      · simp [ha] at h; subst h; exact ⟨⟨_, rfl⟩, .bool true⟩
+      · simp [ha] at h
+    · refine optField_json _ _ ?_ kv h
+      intro x hx; cases cls <;> simp at hx; subst hx; exact .str _
+    · exact optTy_json K ty kv h
+    · refine optField_json _ _ ?_ kv h
+      intro x hx; cases c <;> simp at hx; subst hx; exact strs_json _
+    · exact optMeta_json K m kv h
+    · refine optField_json _ _ ?_ kv h
+      intro x hx; cases v <;> simp at hx; subst hx; exact raw_json _
+theorem optTy_json (K : Keys) : ∀ (ty : Option (List Payload)),
+    ∀ kv ∈ optTy K ty, (∃ s, kv.1 = .str s) ∧ JsonValue kv.2
+  | none => by simp [optTy]
+  | some ps => by
+    intro kv hkv; simp [optTy] at hkv; subst hkv
+    exact ⟨⟨_, rfl⟩, .list _ (payloads_json K ps)⟩
+theorem payloads_json (K : Keys) : ∀ (ps : List Payload), ∀ x ∈ payloadsToPy K ps, JsonValue x
+  | [] => by simp [payloadsToPy]
+  | p :: ps => by
+    intro x hx
+    simp only [payloadsToPy, List.mem_cons] at hx
+    rcases hx with h | h
+    · exact h ▸ payload_json K p
+    · exact payloads_json K ps x h
+theorem optMeta_json (K : Keys) : ∀ (m : Option (List PMeta)),
+    ∀ kv ∈ optMeta K m, (∃ s, kv.1 = .str s) ∧ JsonValue kv.2
+  | none => by simp [optMeta]
+  | some l => by
+    intro kv hkv; simp [optMeta] at hkv; subst hkv
+    exact ⟨⟨_, rfl⟩, dict_json _ (pmetas_json K l)⟩
+theorem pmetas_json (K : Keys) : ∀ (l : List PMeta),
+    ∀ kv ∈ pmetasToPy K l, (∃ s, kv.1 = .str s) ∧ JsonValue kv.2
+  | [] => by simp [pmetasToPy]
+  | .raw k r :: es => by
+    intro kv hkv
+    simp only [pmetasToPy, List.mem_cons] at hkv
+    rcases hkv with h | h
+    · subst h; exact ⟨⟨k, rfl⟩, raw_json r⟩
+    · exact pmetas_json K es kv h
+  | .expr k ps :: es => by
+    intro kv hkv
+    simp only [pmetasToPy, List.mem_cons] at hkv
+    rcases hkv with h | h
+    · subst h
+      refine ⟨⟨k, rfl⟩, dict_json _ ?_⟩
+      intro kv' hkv'
+      simp at hkv'; subst hkv'
+      exact ⟨⟨_, rfl⟩, .list _ (payloads_json K ps)⟩
+    · exact pmetas_json K es kv h
 end
 
 end SqlglotModel.Serde
